@@ -55,7 +55,7 @@ var prop = vlib.Prop[*Case]{
 
 func Exec(c *Case) (nontrivial bool, labels []string, fail *vlib.Failure) {
 	if strings.HasPrefix(c.Hist.GNMI, "nc:") {
-		return vlib.ExecNCLoop(c.Hist, "C09", true)
+		return vlib.ExecNCLoop(c.Hist, "C09", true, nil)
 	}
 	if c.Hist.Loop {
 		return execGNMILoop(c)
